@@ -15,8 +15,8 @@ from .common import (E1_ASSUMPTIONS, E1_COMPONENTS, build_config, created_under,
 ID = "C13"
 LEVEL = "exploration"
 TIERS = {
-    "quick": {"shards": 64, "examples": 10, "det_shards": 2},
-    "thorough": {"shards": 640, "examples": 30, "det_shards": 8},
+    "quick": {"shards": 128, "examples": 20, "det_shards": 2},
+    "thorough": {"shards": 1024, "examples": 50, "det_shards": 8},
 }
 RULE = ("case = (world, variant): a generated directory tree with settings (recursion, auto-exclusion, prefix and its "
         "source, 0-3 exclude patterns, output placement) run under one listing schedule and, in fault shards, one I/O "
